@@ -243,7 +243,7 @@ func init() {
 		TrustedBase: scanTrusted,
 		Floors: []report.Floor{
 			{Rule: "buf-readonly", What: "functions", Min: 400},
-			{Rule: "cb-guard", What: "calls", Min: 4},
+			{Rule: "cb-guard", What: "calls", Min: 2},
 			{Rule: "idx-guard", What: "sites", Min: 1200},
 			{Rule: "progress", What: "token-steps", Min: 200},
 			{Rule: "pred-pure", What: "predicates", Min: 5},
